@@ -24,11 +24,44 @@ type vecCase struct {
 
 func (c vecCase) key() string { return fmt.Sprintf("%d|%d|%v|%s", c.Ver, c.Level, c.NilRecv, c.Input) }
 
+// refusedDecodeNoise performs decodes that every decoder refuses, through nil receivers and
+// constructors, between two cases: fully written vectors with one late defect, so that a
+// refused decode has already parsed every metric. What they return is C07/C11/C12's subject;
+// here they are history that must not influence the next accepted vector.
+var refusedV3 = []string{
+	"CVSS:3.1/AV:P/AC:H/PR:H/UI:R/S:C/C:L/I:L/A:L/E:U/RL:O/RC:U/CR:H/IR:H/AR:H/MAV:P/MAC:H/MPR:H/MUI:R/MS:C/MC:H/MI:H/MA:H/ZZ:1",
+	"CVSS:3.0/AC:H/PR:H/UI:R/S:C/C:L/I:L/A:L/E:U/RL:O/RC:U/CR:L/IR:L/AR:L/MAV:A/MAC:L/MPR:L/MUI:N/MS:U/MC:L/MI:L/MA:L",
+	"CVSS:3.1/MA:H/MI:H/MC:H/MS:C/MUI:R/MPR:H/MAC:H/MAV:P/AR:H/IR:H/CR:H/RC:U/RL:O/E:U/A:L/I:L/C:L/S:C/UI:R/PR:H/AC:H/AV:Q",
+	"CVSS:3.1/AV:P/AC:H/PR:H/UI:R/S:C/C:L/I:L/A:L/E:U/RL:O/RC:U/E:F",
+}
+var refusedV2 = []string{
+	"AV:L/AC:H/Au:M/C:P/I:P/A:P/E:U/RL:OF/RC:UC/CDP:H/TD:H/CR:H/IR:H/AR:H/ZZ:1",
+	"AV:L/AC:H/Au:M/C:P/I:P/A:P/E:U/RL:OF/RC:UC/CDP:H/TD:H/CR:H/IR:H/AR:Q",
+	"AC:H/Au:M/C:P/I:P/A:P/E:U/RL:OF/RC:UC",
+	"AV:L/AC:H/Au:M/C:P/I:P/A:P/E:U/RL:OF",
+}
+
+var refusedCount int
+
+func refusedDecodeNoise(ver int, lv spec.Level) {
+	refusedCount++ // one vector per case, in rotation (a replayed case starts the rotation anew)
+	if ver == 3 {
+		bad := refusedV3[refusedCount%len(refusedV3)]
+		decode3(lv, bad, true)
+		decode3(lv, bad, false)
+		return
+	}
+	bad := refusedV2[refusedCount%len(refusedV2)]
+	decode2(lv, bad, true)
+	decode2(lv, bad, false)
+}
+
 // ---------------------------------------------------------------------------------------------
 // C09
 
 var checkC09 = register("C09/vector", func(c vecCase) string {
 	lv := spec.Level(c.Level)
+	refusedDecodeNoise(c.Ver, lv)
 	if c.Ver == 3 {
 		ref, ok := spec.AcceptV3(c.Input, lv)
 		if !ok {
@@ -108,6 +141,7 @@ var checkC09 = register("C09/vector", func(c vecCase) string {
 
 var checkC10 = register("C10/vector", func(c vecCase) string {
 	lv := spec.Level(c.Level)
+	refusedDecodeNoise(c.Ver, lv)
 	if c.Ver == 3 {
 		ref, ok := spec.AcceptV3(c.Input, lv)
 		if !ok {
@@ -143,6 +177,11 @@ var checkC10 = register("C10/vector", func(c vecCase) string {
 				}
 			}
 		}
+		// ... and the receivers left behind by refused decodes (what they return is C12's
+		// subject; here they are only work done between two encodes of valid objects)
+		if d, err := decode3Keep(lv, []string{"CVSS:3.1/AV:N/AC:L/PR:N", "CVSS:3.0/AV:N/AC:L/PR:N/UI:N/S:U/C:H/I:H/A:H/E:Q", "CVSS:3.1/AV:N/AC:L/PR:N/UI:N/S:U/C:H/I:H/A:H/ZZ:1"}[refusedCount%3], false); err != nil {
+			snap3(d)
+		}
 		if held != want || heldStr != want {
 			return fmt.Sprintf("the encoding returned for %q changed after other objects were encoded: now %q / %q, canonical %q", c.Input, held, heldStr, want)
 		}
@@ -169,6 +208,18 @@ var checkC10 = register("C10/vector", func(c vecCase) string {
 	}
 	if d := s.diff(snap2(o2)); d != "" {
 		return fmt.Sprintf("decode(encode(x)) differs from x for %q: %s", c.Input, d)
+	}
+	held, heldStr := top.Enc, top.Str
+	for _, dv := range []string{"AV:L/AC:H/Au:M/C:P/I:N/A:C", "AV:N/AC:L/Au:N/C:N/I:N/A:C/E:F/RL:OF/RC:C", "AV:A/AC:M/Au:S/C:C/I:P/A:N/E:POC/RL:W/RC:UR/CDP:LM/TD:M/CR:H/IR:L/AR:M"} {
+		if d, err := decode2(lv, dv, false); err == nil {
+			snap2(d)
+		}
+	}
+	if d, err := decode2Keep(lv, []string{"AV:N/AC:L/Au:N", "AV:N/AC:L/Au:N/C:P/I:P/A:Q", "AV:N/AC:L/Au:N/C:P/I:P/A:P/E:F"}[refusedCount%3], false); err != nil {
+		snap2(d)
+	}
+	if held != c.Input || heldStr != c.Input {
+		return fmt.Sprintf("the encoding returned for %q changed after other objects were encoded: now %q / %q", c.Input, held, heldStr)
 	}
 	return ""
 })
